@@ -17,6 +17,8 @@ pub enum TOp
     Clone(u8),
     /// drop the worker's newest clone of signal `s`
     Drop(u8),
+    /// same, but the clone is dropped while a (caught) panic unwinds the worker's stack
+    DropUnwind(u8),
     Yield,
 }
 
@@ -80,6 +82,8 @@ pub fn gen_tprog(seed: u64) -> TProg
         for _ in 0..n
         {
             let s = r.below(nsig as u64) as u8;
+            // (`DropUnwind` is not generated here: shuttle's own panic hook reports every panic, caught or not, on stderr; the op is
+            // exercised by the single-threaded simulator instead and stays available for hand-written scenarios)
             let op = match r.below(6) { 0 | 1 => TOp::Clone(s), 2 | 3 | 4 => TOp::Drop(s), _ => TOp::Yield };
             let at = r.below(p.workers[w].len() as u64 + 1) as usize;
             p.workers[w].insert(at, op);
@@ -182,6 +186,17 @@ fn scenario(p: &TProg, stats: &TStats)
                 {
                     TOp::Clone(s) => { if let Some(h) = held[s as usize].last() { let c = h.sig.clone(); let id = sh.created(s); held[s as usize].push(Held { sig: c, id }); } }
                     TOp::Drop(s) => { if let Some(h) = held[s as usize].pop() { drop_held(&sh, h); } }
+                    TOp::DropUnwind(s) =>
+                    {
+                        if let Some(h) = held[s as usize].pop()
+                        {
+                            sh.drop_invoke(h.id);
+                            let id = h.id;
+                            let sig = h.sig;
+                            let _ = std::panic::catch_unwind(std::panic::AssertUnwindSafe(move || { let _guard = sig; panic!("unwinding with a signal clone on the stack"); }));
+                            sh.drop_return(id);
+                        }
+                    }
                     TOp::Yield => shuttle::thread::yield_now(),
                 }
             }
